@@ -9,7 +9,13 @@ ATOMS: List[Any] = [
     1.5, -0.0, 0.0, 1e308, 5e-324, 2.2250738585072014e-308, 1e-7, 123456789.123456789, -1.7976931348623157e308,
     "", "a", "\n", "\r", "\r\n", "\u0000", "\u001f", "\u007f", "\u0085", "\u2028", "\u2029", " ", "\t",
     "\u00e9", "\u20ac", "\U0001f600", "\"\\", "\ud7ff", "\ue000", "\ufffe", "\uffff", "\U0010ffff", "a\nb",
-    "</script>", "\\n", "\ufeff",
+    "</script>", "\\n", "\ufeff", "null", "None", "NaN", "Infinity", "undefined", "true",
+]
+# members named like the envelope's own members / like attributes of the model classes
+COLLIDERS: List[Any] = [
+    {"id": 5, "method": "m", "jsonrpc": "1.0", "result": 1, "error": {"code": 1, "message": "x"}, "params": [1]},
+    {"_meta": {"progressToken": "t"}, "meta": 1, "schema": 2, "schema_": 3},
+    {"__class__": "x", "__dict__": {}, "model_config": 1, "model_fields": 2, "self": None, "cls": None},
 ]
 SMALL_ATOMS: List[Any] = [None, True, 0, 2**63, 1.5, "", "\n", "\u2028", "\U0001f600"]
 KEYS = ["k", "", "\u00e9\n", "\u2028\U0001f600"]
@@ -26,6 +32,7 @@ def grammar(depth: int) -> List[Any]:
     v1 += [[a] for a in v0]
     v1 += [{k: a} for a in v0 for k in KEYS[:3]]
     v1 += [[a, b] for a in SMALL_ATOMS for b in SMALL_ATOMS]
+    v1 += [dict(c) for c in COLLIDERS] + [[dict(c)] for c in COLLIDERS] + [{"k": dict(c)} for c in COLLIDERS]
     v1 += [{"x": a, "é": b} for a in SMALL_ATOMS[:4] for b in SMALL_ATOMS[:4]]
     cur = v1
     for _ in range(depth - 1):
@@ -94,6 +101,8 @@ def rand_json(rng: random.Random, depth: int = 4, allow_float: bool = True) -> A
         return rand_string(rng)
     if c < 0.65:
         return [rand_json(rng, depth - 1, allow_float) for _ in range(rng.choice([0, 1, 2, 3, 5]))]
+    if c < 0.69:
+        return dict(rng.choice(COLLIDERS))
     return {rand_string(rng): rand_json(rng, depth - 1, allow_float) for _ in range(rng.choice([0, 1, 2, 3, 5]))}
 
 
